@@ -28,7 +28,8 @@ Definition fd (n : str) (o : list str) (ps : list (str * str)) (sd df b : alist)
      Alias.d_bound := b; Alias.d_cached := c |}.
 
 Inductive case :=
-| CRewrite (p : pipeline) (ops : list op) (calls : list rcall)
+| CRewrite (p : pipeline) (ops : list op) (calls : list rcall) (mapin : option (alist * alist))
+    (* mapin: inputs of Pipeline.map (storage="dict", parallel=False) for the original / the rewritten pipeline *)
 | CMap (c : mcase)
 | CAliasMap (c : acase)
 | CAlias (ds : list Alias.fdesc) (rw : aop) (mutate_original : bool) (m : amut)
@@ -144,17 +145,30 @@ Definition run_alias (ds : list Alias.fdesc) (rw : aop) (side : bool) (m : amut)
     end in
   match res with Some x => x | None => bad_case end.
 
+(* Pipeline.map of a pipeline without MapSpecs on inputs for all its root arguments: every function runs once on
+   the resolved arguments, i.e. every output has the value of its evaluation; observed sorted by name *)
+Definition map_all (p : npipe) (inputs : alist) : sx :=
+  match mapM (fun o => do v <- neval body pick (nfuel p) p inputs o; Ok (SL [SS o; SS v]))
+             (sort_strs (all_outputs (funcs p))) with
+  | Ok l => SL [SS (s "ok"); SL l]
+  | Err e => SErr e
+  end.
+
 Definition run (c : case) : sx :=
   match c with
-  | CRewrite p ops calls =>
+  | CRewrite p ops calls mapin =>
       if negb (wf_pipelineb p && ops_in_domain ops (lift p)) then bad_case
       else
         let '(status, trace, p') := apply_trace ops 0 (lift p) [] in
         match status with
-        | Some (e, i) => SL [SL [SErr e; SN i]; SL (map sx_struct trace); SL []]
+        | Some (e, i) => SL [SL [SErr e; SN i]; SL (map sx_struct trace); SL []; SL []]
         | None =>
             SL [sx_ok; SL (map sx_struct trace);
-                SL (map (fun c => SL (sx_res (run_orig p c) ++ sx_res (nrun body pick p' (c_o1 c) (c_kw1 c)))) calls)]
+                SL (map (fun c => SL (sx_res (run_orig p c) ++ sx_res (nrun body pick p' (c_o1 c) (c_kw1 c)))) calls);
+                match mapin with
+                | None => SL []
+                | Some (in0, in1) => SL [map_all (lift p) in0; map_all p' in1]
+                end]
         end
   | CMap mc => run_map mc
   | CAliasMap ac => run_alias_map ac
@@ -354,6 +368,38 @@ Definition call_ok (p : pipeline) (rho : str -> str) (spF : list fstruct) (c : r
   | _ => false
   end.
 
+(* Pipeline.map: the rewritten pipeline gives every retained output that depends on functions of p only the value
+   the original map gives it (inputs: all root arguments, renamed) *)
+Definition un_named (x : sx) : option (list (str * str)) :=
+  match un_ok x with
+  | Some (SL l) => optM (fun y => match y with SL [SS n; SS v] => Some (n, v) | _ => None end) l
+  | _ => None
+  end.
+Definition map_ok (p : pipeline) (rho : str -> str) (spF : list fstruct) (mapin : option (alist * alist)) (mobs : sx) : bool :=
+  match mapin, mobs with
+  | None, _ => true
+  | Some (in0, in1), SL [m0; m1] =>
+      if negb (alist_eqb in1 (map (fun kv => (rho (fst kv), snd kv)) in0)
+                         || subset_str (akeys (map (fun kv => (rho (fst kv), snd kv)) in0)) (akeys in1)) then false
+      else
+        match un_named m0 with
+        | None => true                                   (* the original map gives no values *)
+        | Some r0 =>
+            match un_named m1 with
+            | None => false
+            | Some r1 =>
+                forallb (fun nv =>
+                           let o1 := rho (fst nv) in
+                           if negb (mem_str o1 (st_outputs spF)) then true
+                           else
+                             let vis := visit (S (length spF)) spF (akeys in1) o1 in
+                             if negb (subset_str (flat_map s_prims vis) (map fname p)) then true
+                             else match aget r1 o1 with Some v => str_eqb v (snd nv) | None => false end) r0
+            end
+        end
+  | _, _ => false
+  end.
+
 (* walk the operations: every request that must be accepted is accepted and retains what it must *)
 Fixpoint ops_ok (ops : list op) (i : nat) (sp : list fstruct) (failed : option nat) (structs : list sx)
          (rho : str -> str) (k : list fstruct -> (str -> str) -> bool) : bool :=
@@ -378,16 +424,17 @@ Fixpoint ops_ok (ops : list op) (i : nat) (sp : list fstruct) (failed : option n
 
 Definition spec_ok (c : case) (obs : sx) : bool :=
   match c with
-  | CRewrite p ops calls =>
+  | CRewrite p ops calls mapin =>
       if negb (wf_pipelineb p) then true
       else
         match obs with
-        | SL [status; SL structs; SL cobs] =>
+        | SL [status; SL structs; SL cobs; mobs] =>
             let failed := match status with SL [_; SI z] => Some (Z.to_nat z) | _ => None end in
             ops_ok ops 0 (struct_of_pipeline p) failed structs (fun n => n)
                    (fun spF rho =>
                       (length cobs =? length calls)
-                      && forallb (fun co => call_ok p rho spF (fst co) (snd co)) (combine calls cobs))
+                      && forallb (fun co => call_ok p rho spF (fst co) (snd co)) (combine calls cobs)
+                      && map_ok p rho spF mapin mobs)
         | _ => false
         end
   | CMap mc => spec_map mc obs
